@@ -220,7 +220,10 @@ func c08Main(r *run.Runner) {
 	})
 	// the large enumerations last: the families above must not be starved by the tier deadline
 	b1 := tokenSweeps(r, 4, 6, c08One)
+	// joined with blanks and with an empty comment line (what follows a comment is still part of the source)
+	corruptionSeps = []string{" ", " //\n"}
 	b2 := corruptionSweep(r, c08One)
+	corruptionSeps = []string{" "}
 	r.Extra["bounds"] = map[string]any{"token_sequences": b1, "corruptions": b2, "scale_programs": len(scale)}
 	r.Sample("T | where f ( a [ = ] )")
 	r.Sample("T | summarize a , by a")
